@@ -17,7 +17,51 @@ static int64_t gen_N(Tape &t, int bs0, int bs1) {
   }
 }
 
+// Exhaustive arm (tape generation 4): every N of one window of 128 consecutive lengths inside [0, 3*bs1+2+127] for one of the block-size
+// families, fed in one call (or, in the same case, in two pieces cut at a tape-chosen point): packet stream shape, exact count at packet
+// level and through vorbisfile.  The window index is drawn from the tape, so a thorough run covers every window of every family many
+// times over; which windows were covered is in the labels.
+static bool sweep_N(Tape &t, Report &r) {
+  static const long fam_rate[] = {44100, 8000, 11025, 16000, 22050, 32000, 96000, 4000};
+  int f = t.below(8); EncCfg cfg; cfg.rate = fam_rate[f]; cfg.channels = 1 + (int)t.below(2); cfg.quality = (float)(t.range(-1, 10) / 10.0);
+  if (t.chance(1, 4)) { cfg.mode = 1; cfg.br_nom = (long)(48000.0 * std::max(0.2, cfg.rate / 44100.0)) * cfg.channels; }
+  Signal sig = Signal::gen(t);
+  int bs1 = 0; { Encoder e; if (e.setup(cfg) != 0) { r.label("sweep: setup refused"); return true; } bs1 = (int)vorbis_info_blocksize(&e.vi, 1); }
+  int nwin = (3 * bs1 + 2) / 128 + 1; int w = (int)t.below((uint32_t)nwin); int cutsel = (int)t.below(4);
+  r.label("exhaustive N window"); r.label(sfmt("sweep rate=%ld bs1=%d window %d/%d", cfg.rate, bs1, w, nwin));
+  for (int64_t N = (int64_t)w * 128; N < (int64_t)(w + 1) * 128; N++) {
+    std::vector<int> pieces; std::vector<char> da;
+    if (N > 0) { if (cutsel == 0 || N < 2) pieces.push_back((int)N); else { int c = cutsel == 1 ? 1 : cutsel == 2 ? (int)(N / 2) : (int)(N - 1); pieces.push_back(c); pieces.push_back((int)(N - c)); } }
+    da.assign(pieces.size(), (char)(cutsel & 1));
+    LStream s; s.serial = 77; std::string err;
+    if (encode_stream(cfg, sig, N, pieces, da, s, err) != 0) return r.fail("sweep: encode failed: %s (%s N=%lld)", err.c_str(), cfg.desc().c_str(), (long long)N);
+    std::string cd = cfg.desc() + " " + sig.desc() + sfmt(" sweep N=%lld cut=%d bs=%d/%d packets=%zu", (long long)N, cutsel, s.bs0, s.bs1, s.audio.size());
+    int eos = 0; int64_t last = -1;
+    for (size_t i = 0; i < s.audio.size(); i++) { const Pkt &p = s.audio[i]; if (p.granulepos < last) return r.fail("granulepos decreases at packet %zu [%s]", i, cd.c_str()); last = p.granulepos; if (p.eos) { eos++; if (i + 1 != s.audio.size()) return r.fail("e_o_s on packet %zu of %zu [%s]", i, s.audio.size(), cd.c_str()); } }
+    if (s.audio.empty() || eos != 1) return r.fail("%d packets carry e_o_s (%zu packets) [%s]", eos, s.audio.size(), cd.c_str());
+    if (last != N) return r.fail("last packet granulepos %lld != N=%lld [%s]", (long long)last, (long long)N, cd.c_str());
+    DecodeResult d; if (!decode_packets(s, d)) return r.fail("decoder refuses encoder headers [%s]", cd.c_str());
+    for (size_t i = 0; i < d.synth_ret.size(); i++) if (d.synth_ret[i] || d.blockin_ret[i]) return r.fail("packet %zu rejected synth=%d blockin=%d [%s]", i, d.synth_ret[i], d.blockin_ret[i], cd.c_str());
+    if (d.total() != N) return r.fail("packet-level decode returns %lld samples, N=%lld [%s]", (long long)d.total(), (long long)N, cd.c_str());
+    Chain ch; ch.links.push_back(s); Layout lay; lay.style = (int)(N % 3 == 0 ? 5 : N % 3 == 1 ? 0 : 1); lay.seed = (uint32_t)N; build_chain(ch, {lay});
+    for (int mode = 0; mode < 2; mode++) {
+      MemSrc ms; ms.data = &ch.bytes; ms.read_mode = 0; ms.sched = Bulk(1); ms.budget = -1; OggVorbis_File vf; ms.mark();
+      int orr = ov_open_callbacks(&ms, &vf, NULL, 0, ms_callbacks(mode == 0));
+      if (orr != 0) return r.fail("ov_open_callbacks(%s)=%d on encoder output [%s]", mode ? "streaming" : "seekable", orr, cd.c_str());
+      int64_t tot = mode == 0 ? ov_pcm_total(&vf, -1) : N, tell0 = ov_pcm_tell(&vf);
+      std::vector<PCM> pl; std::vector<long> neg; vf_read_all(&vf, pl, neg); int64_t tellend = ov_pcm_tell(&vf); ov_clear(&vf);
+      int64_t got = pl.empty() || pl[0].empty() ? 0 : (int64_t)pl[0][0].size();
+      if (tot != N || tell0 != 0 || !neg.empty() || got != N || tellend != N)
+        return r.fail("vorbisfile (%s): total=%lld tell0=%lld delivered=%lld tell at end=%lld negatives=%zu, N=%lld [%s]", mode ? "streaming" : "seekable", (long long)tot, (long long)tell0, (long long)got, (long long)tellend, neg.size(), (long long)N, cd.c_str());
+      if (N > 0 && !pcm_equal(pl[0], d.pcm)) return r.fail("vorbisfile audio differs from packet-level decode (%s) [%s]", mode ? "streaming" : "seekable", cd.c_str());
+    }
+    uint64_t h = fnv1a(cd.data(), cd.size()); r.nontriv(h);
+  }
+  return true;
+}
+
 bool prop_run(Tape &t, Report &r) {
+  if (g_tape_gen >= 4) { const char *tier = getenv("VERIF_TIER_RUN"); int den = tier && !strcmp(tier, "thorough") ? 12 : 120; if (t.chance(1, (uint32_t)den)) return sweep_N(t, r); }
   EncCfg cfg = gen_enccfg(t, true, 8);
   if (t.chance(1, 40)) cfg.channels = t.chance(1, 2) ? 255 : 16 + t.below(100);
   Signal sig = Signal::gen(t);
